@@ -102,6 +102,11 @@ CHECKS = {
    text="TLC checks Bernstein = de Casteljau = Horner, the basis-change round trip, derivative = polynomial derivative and the split re-parameterisation on unisolvent grids for degrees 0..8, SimpleOnce/ClusterRepresented/OnePerCluster for every set partition x kind vector of up to 5 (quick) / 6 (thorough) roots, and the correctness of the limit recursion for all integer polynomial pairs of degree <= 2 at four points; each case is replayed: bezier_point, bezier2polynomial, polynomial2bezier, split_bezier, halve_bezier with Fractions (exact equality), polyroots/polyroots01 with numpy.roots returning exactly the model's ordered list, rational_limit on every (f,g,t0); 300/3000 real polynomials with prescribed root sets are validated as traces.",
    note="Trusted: TLC, Python Fractions, the interpolation argument (identities linear in the control points and of degree <= n in t). Closeness of roots is modelled as an equivalence relation; non-transitive chains are not generated.",
    ref="4 (C19), 3.6, 3.7"),
+ 'C20': dict(
+   technique="TLA+ state machine of the joint loop of smoothed_path (Smooth.tla: AlreadySmooth, three elbow constructions, closing joint) model-checked with TLC; every scenario realised geometrically and pushed through the real smoothed_path",
+   text="TLC checks Continuous, NoKinks, EndpointsKept, StaysClosed, SmoothUntouched, SingleUnchanged and EverySegmentKept for every pattern of <= 4 line / cubic segments x smooth / kink joints x open / closed (506 scenarios); each scenario is realised with seeded geometry (corner angles 25-155 degrees, segment lengths from 0.3 to 40 against maxjointsize 0.7 / 3 / 10, tightness 0.5 / 1.5 / 1.99) and the real result must be continuous, have matching unit tangents at every joint incl. the closing one, keep the end points (open) or stay closed, leave smooth joints at the same point with the same tangent, return a single segment unchanged, and keep every sampled point within maxjointsize of the input.",
+   note="Trusted: TLC; the geometric realisation is verified against the scenario before use (draws that do not realise the pattern are discarded and counted). The distance bound is sampled, not decided. Straight (collinear) smooth joints inside closed polygons are covered by the open scenarios only.",
+   ref="4 (C20), 3.13"),
 }
 PENDING = {}
 ALL = ['C%02d' % i for i in range(1, 21)]
